@@ -784,6 +784,109 @@ fn calibration_family(proto: &Acc) -> (Acc, f64) {
     (acc, worst)
 }
 
+/// Lists of n *minimal* entries (8 bytes each) whose TLF declares more entries than are present:
+/// an allocation that follows the declared count instead of the input shows up here even when the
+/// parser only over-allocates after some entries have been read.
+fn overdeclared_lists_family(proto: &Acc) -> Acc {
+    let mut inputs: Vec<Vec<u8>> = vec![];
+    for present in (0..=40usize).chain([64, 100, 300]) {
+        for &declared in &DECLARED {
+            if declared < present as u128 || declared > u32::MAX as u128 {
+                continue;
+            }
+            for tail in [false, true] {
+                // header of a get-list response up to the value list
+                let mut body = vec![0x76, 0x03, 0x0a, 0x0b, 0x62, 0x00, 0x62, 0x00, 0x72, 0x63, 0x07, 0x01, 0x77, 0x01, 0x03, 0x09, 0x08, 0x01, 0x01];
+                body.extend(raw_tlf(Ty::List, declared, min_nibbles(declared)));
+                for _ in 0..present {
+                    body.extend_from_slice(&[0x77, 0x01, 0x01, 0x01, 0x01, 0x01, 0x01, 0x01]);
+                }
+                if tail {
+                    body.extend_from_slice(&[0x01, 0x01]);
+                    let crc = crate::refm::crc_x25(&body).swap_bytes();
+                    body.extend_from_slice(&[0x63, (crc >> 8) as u8, crc as u8, 0x00]);
+                }
+                inputs.push(body);
+            }
+        }
+    }
+    let parts = par_chunks(inputs.len() as u64, 16, |a, b| {
+        let mut acc = Acc::new(&proto.report, proto.rename_c12);
+        for i in a..b {
+            acc.feed(&inputs[i as usize], "lists of minimal entries declaring more entries than present");
+        }
+        acc
+    });
+    let mut acc = Acc::new(&proto.report, proto.rename_c12);
+    for p in parts {
+        acc.merge(p);
+    }
+    acc
+}
+
+/// Every message checksum field of every seed re-encoded in every way a lenient comparison might
+/// accept: one byte (either half), swapped halves, zero-extended, wider, other types.
+fn crc_field_family(seed_set: &[Vec<u8>], proto: &Acc) -> Acc {
+    let mut inputs: Vec<Vec<u8>> = vec![];
+    for s in seed_set {
+        let mut c = Cur::new(s);
+        let mut ok = true;
+        while c.i < s.len() {
+            if c.message().is_err() {
+                ok = false;
+                break;
+            }
+        }
+        if !ok {
+            continue;
+        }
+        for &(_, _, at) in &c.crc_sites {
+            if s[at] != 0x63 {
+                continue;
+            }
+            let (hi, lo) = (s[at + 1], s[at + 2]);
+            let variants: Vec<Vec<u8>> = vec![
+                vec![0x62, lo],
+                vec![0x62, hi],
+                vec![0x63, lo, hi],
+                vec![0x63, 0x00, lo],
+                vec![0x63, 0x00, hi],
+                vec![0x63, hi, 0x00],
+                vec![0x64, 0x00, hi, lo],
+                vec![0x65, 0x00, 0x00, hi, lo],
+                vec![0x64, hi, lo, 0x00],
+                vec![0x53, hi, lo],
+                vec![0x52, lo],
+                vec![0x03, hi, lo],
+                vec![0x43, hi, lo],
+                vec![0x72, 0x62, hi, 0x62, lo],
+                vec![0xe0, 0x04, hi, lo],
+                vec![0x01],
+                vec![0x61],
+                vec![0x63, hi],
+            ];
+            for v in variants {
+                let mut x = s[..at].to_vec();
+                x.extend_from_slice(&v);
+                x.extend_from_slice(&s[at + 3..]);
+                inputs.push(x);
+            }
+        }
+    }
+    let parts = par_chunks(inputs.len() as u64, 16, |a, b| {
+        let mut acc = Acc::new(&proto.report, proto.rename_c12);
+        for i in a..b {
+            acc.feed(&inputs[i as usize], "checksum field re-encoded (short, swapped, wider, other type)");
+        }
+        acc
+    });
+    let mut acc = Acc::new(&proto.report, proto.rename_c12);
+    for p in parts {
+        acc.merge(p);
+    }
+    acc
+}
+
 // ------------------------------------------------------------------ C12 families
 /// Template get-list message with a hole at one of four grammar sites; `fill` is the
 /// candidate TLF bytes and `n` the number of payload bytes / list elements supplied.
@@ -923,6 +1026,33 @@ fn c12_long_tlfs(proto: &Acc) -> Acc {
             }
         }
     }
+    // one or two set groups far above the low 32 bits (wider accumulators lose them as well),
+    // with a small low part that the data can satisfy
+    for n in 9..=72usize {
+        for ty in [Ty::Octet, Ty::List, Ty::Uint] {
+            for hi in 0..n - 8 {
+                if n > 24 && !(hi < 3 || hi + 11 >= n || hi % 8 == 0) {
+                    continue;
+                }
+                for low in [n as u128 + 2, 6u128] {
+                    for g in [1u8, 0xf] {
+                        let mut nibs = vec![0u8; n];
+                        nibs[hi] = g;
+                        for k in 0..8 {
+                            nibs[n - 1 - k] = ((low >> (4 * k)) & 0xf) as u8;
+                        }
+                        let mut t = vec![];
+                        for (k, nb) in nibs.iter().enumerate() {
+                            let more = if k + 1 < n { 0x80 } else { 0 };
+                            let tb = if k == 0 { ty.bits() } else { 0 };
+                            t.push(more | tb | nb);
+                        }
+                        tl.push(t);
+                    }
+                }
+            }
+        }
+    }
     // very long fields with leading zero groups: the value still fits 32 bits, so the SML rule
     // accepts them; the field's own byte count crosses every 8- and 16-bit counter width
     for n in [13usize, 16, 17, 64, 127, 128, 254, 255, 256, 257, 258, 300, 1000, 65535, 65536, 65537] {
@@ -1043,6 +1173,49 @@ fn c12_primitives(proto: &Acc, tier: Tier) -> Acc {
                         inputs.push(body);
                     }
                 }
+            }
+        }
+    }
+    // numeric fields announcing an absurd width *and* carrying that many bytes (a width check done
+    // in a narrower type would wrap: 257 = 1 mod 256 ...), at every integer site
+    for w in [9usize, 15, 16, 17, 255, 256, 257, 258, 260, 264, 265, 512, 513, 520, 65537] {
+        for ty in [Ty::Int, Ty::Uint] {
+            let mut enc = Enc::new(&[]);
+            enc.tlf(ty, w as u64, false);
+            let mut field = enc.out.clone();
+            field.extend(std::iter::repeat(0x01).take(w));
+            let mut e = vec![0x77, 0x01, 0x01, 0x01, 0x01, 0x01];
+            e.extend(&field);
+            e.push(0x01);
+            inputs.push(msg_with_entry(&e));
+            let mut e = vec![0x77, 0x01];
+            e.extend(&field);
+            e.extend_from_slice(&[0x01, 0x01, 0x01, 0x62, 0x05, 0x01]);
+            inputs.push(msg_with_entry(&e));
+            let mut e = vec![0x77, 0x01, 0x01, 0x01];
+            e.extend(&field);
+            e.extend_from_slice(&[0x01, 0x62, 0x05, 0x01]);
+            inputs.push(msg_with_entry(&e));
+            let mut e = vec![0x77, 0x01, 0x01, 0x01, 0x01];
+            e.extend(&field);
+            e.extend_from_slice(&[0x62, 0x05, 0x01]);
+            inputs.push(msg_with_entry(&e));
+            let mut e = vec![0x77, 0x01, 0x01, 0x72, 0x62, 0x01];
+            e.extend(&field);
+            e.extend_from_slice(&[0x01, 0x01, 0x62, 0x05, 0x01]);
+            inputs.push(msg_with_entry(&e));
+            for pos in 0..5 {
+                let mut body = vec![0x76, 0x03, 0x0a, 0x0b];
+                if pos == 0 { body.extend(&field) } else { body.extend_from_slice(&[0x62, 0x00]) }
+                if pos == 1 { body.extend(&field) } else { body.extend_from_slice(&[0x62, 0x00]) }
+                body.push(0x72);
+                if pos == 2 { body.extend(&field) } else { body.extend_from_slice(&[0x63, 0x01, 0x01]) }
+                body.extend_from_slice(&[0x76, 0x01, 0x01, 0x02, 0x11, 0x02, 0x22, 0x01]);
+                if pos == 3 { body.extend(&field) } else { body.push(0x01) }
+                let crc = crate::refm::crc_x25(&body).swap_bytes();
+                if pos == 4 { body.extend(&field) } else { body.extend_from_slice(&[0x63, (crc >> 8) as u8, crc as u8]) }
+                body.push(0x00);
+                inputs.push(body);
             }
         }
     }
@@ -1203,6 +1376,8 @@ pub fn run(prop: &'static str, tier: Tier) -> ! {
             fam("splices", splice_family(&small_seeds, tier.pick(150, 2000), &proto), &mut all);
             fam("tlf replacements", tlf_replacement_family(&seed_set, &proto), &mut all);
             fam("long tlfs", c12_long_tlfs(&proto), &mut all);
+            fam("checksum field variants", crc_field_family(&seed_set, &proto), &mut all);
+            fam("primitives", c12_primitives(&proto, Tier::Quick), &mut all);
             all.counts.require(&["checksum-repaired variants", "inputs the independent reader accepts", "inputs the independent reader rejects"]);
         }
         "C06" => {
@@ -1218,6 +1393,9 @@ pub fn run(prop: &'static str, tier: Tier) -> ! {
             let msgs = message_space();
             fam("message product", gen_family(&msgs, 1, &proto, "generated: message-level product x valid encodings"), &mut all);
             fam("splices", splice_family(&small_seeds, tier.pick(60, 600), &proto), &mut all);
+            fam("over-declared lists", overdeclared_lists_family(&proto), &mut all);
+            fam("checksum field variants", crc_field_family(&seed_set, &proto), &mut all);
+            fam("primitives", c12_primitives(&proto, Tier::Quick), &mut all);
             all.counts.require(&["type-length field replaced by one declaring an arbitrary length", "inputs the allocating parser accepts"]);
         }
         "C09" | "C13" => {
@@ -1231,16 +1409,20 @@ pub fn run(prop: &'static str, tier: Tier) -> ! {
             fam("splices", splice_family(&small_seeds, tier.pick(100, 2000), &proto), &mut all);
             fam("tlf replacements", tlf_replacement_family(&seed_set, &proto), &mut all);
             fam("long tlfs", c12_long_tlfs(&proto), &mut all);
+            fam("over-declared lists", overdeclared_lists_family(&proto), &mut all);
+            fam("checksum field variants", crc_field_family(&seed_set, &proto), &mut all);
+            fam("primitives", c12_primitives(&proto, Tier::Quick), &mut all);
             all.counts.require(&["checksum-repaired variants", "inputs the independent reader accepts", "inputs the independent reader rejects"]);
         }
         "C12" => {
             fam("1-byte TLFs", c12_tlf_family(1, &[1, 2, 3, 4], &proto, "all 1-byte type-length fields at four grammar sites"), &mut all);
             fam("2-byte TLFs", c12_tlf_family(2, &[1, 2, 3, 4], &proto, "all 2-byte type-length fields at four grammar sites"), &mut all);
-            let s3: &[u8] = tier.pick(&[2, 4], &[1, 2, 3, 4]);
+            let s3: &[u8] = tier.pick(&[2, 3, 4], &[1, 2, 3, 4]);
             fam("3-byte TLFs", c12_tlf_family(3, s3, &proto, "all 3-byte type-length fields"), &mut all);
             extra.put("three_byte_tlf_sites", s3.iter().map(|s| format!("s{}", s)).collect::<Vec<_>>());
             fam("long TLFs", c12_long_tlfs(&proto), &mut all);
             fam("primitives", c12_primitives(&proto, tier), &mut all);
+            fam("checksum field variants", crc_field_family(&seed_set, &proto), &mut all);
             all.counts.require(&["inputs the independent reader accepts", "inputs the independent reader rejects", "inputs the allocating parser accepts"]);
         }
         _ => unreachable!(),
